@@ -82,11 +82,11 @@ TESTS = {
     'complete_all_bounded': dict(inrepo=True, file='client_table', fn='verif_native_complete_all_requests_bounded',
                                  functions=['tarpc/src/client/in_flight_requests.rs::complete_all_requests (+ its consuming loop)'],
                                  bound='every table of <= 3 entries over ids {0,1,2,u64::MAX} (15 tables)',
-                                 why='stand-in for the R11 ASSUMED contract of unit client (impl Iterator over a draining map with a closure: outside Verus; DelayQueue: Kani ICE)'),
+                                 why='concrete-input companion of the Verus proof of complete_all_requests (unit client, rule R17): exercises the real HashMap::drain and DelayQueue, which the proof models (A-hashmap-iter, A-delayqueue)'),
     'drop_aborts_bounded': dict(inrepo=True, file='server_table', fn='verif_native_drop_aborts_all_bounded',
                                 functions=['tarpc/src/server/in_flight_requests.rs::<InFlightRequests as Drop>::drop'],
                                 bound='every table of <= 3 entries (8 tables)',
-                                why='`values().for_each(|r| r.abort_handle.abort())`: iterator + closure outside Verus; DelayQueue: Kani ICE'),
+                                why='concrete-input companion of the Verus proof of Drop for server::InFlightRequests (unit server, rule R17): exercises the real HashMap::values and AbortHandle, which the proof models (A-hashmap-iter, A-abortable)'),
     'retry_bounded': dict(file='retry_bounded', fn='retry_exhaustive_up_to_max_attempts',
                           functions=['tarpc/src/client/stub/retry.rs::Retry::call'],
                           bound='exhaustive over all policy-decision and ok/err result sequences of up to 5 attempts',
